@@ -176,7 +176,9 @@ def explore(rep, tier, seed):
             shutil.copyfile(im.template, path)
             for o in plist:
                 oc = c08.apply_op(im, o, path, I)[0]
-                assert oc == 'Ok', (pname, o, oc)
+                if oc != 'Ok':   # a well-formed operation of the preparation is refused: a violation by itself (the store cannot be built)
+                    rep.failure('C09:unclassified:well-formed-operation-refused:%s' % o['k'], 'preparing the %r content: %s is refused with %s' % (pname, c08._plain(o), oc),
+                                {'operation': 'prepare', 'op': c08._plain(o), 'prior_content': pname, 'fault': ['none'], 'kind': 'well-formed-operation-refused'})
             P[pname] = dict(path=path, reg=(list(im.AL), list(im.ML)), raw=c08.raw_dump(path, ro=False))
             P[pname]['regset'] = ({x.name for x in im.AL}, {x.name for x in im.ML})
         iso_t_id = c08.make_iso(iso_t).iso_id
@@ -201,7 +203,13 @@ def explore(rep, tier, seed):
                 oc0, n0, term, _, _ = c08.apply_op(im, op, path, I)
                 ev0, closed0 = [EV[e] for e in im.px.events], all(c.closed for c in im.px.conns)
                 post = snap(c08.raw_dump(path, ro=False), I)
-                assert oc0 == 'Ok' and post != pre, (name, pname, oc0)
+                if not (oc0 == 'Ok' and post != pre):
+                    # the un-faulted call on a fresh copy of the prepared file fails although nothing was injected: only what EARLIER
+                    # (faulted, rolled-back) calls of this process left behind outside the file can be the cause -> "the same operation
+                    # can be repeated successfully afterwards" is violated
+                    rep.failure('C09:unclassified:unfaulted-call-fails:%s' % op['k'], '%s on the %s content without any fault returns %s (file changed: %s) after the earlier faulted calls of this process'
+                                % (name, pname, oc0, post != pre), {'operation': name, 'op': c08._plain(op), 'prior_content': pname, 'fault': ['none'], 'kind': 'unfaulted-call-fails'})
+                    continue
                 if ev0 != [1, 2, 4] or not closed0:
                     rep.failure('C09:unclassified:connection-protocol:%s' % op['k'], '%s on %s content without any fault: calls on the connection %s, closed=%s'
                                 % (name, pname, ev0, closed0), {'operation': name, 'op': c08._plain(op), 'prior_content': pname, 'fault': ['none'], 'kind': 'connection-protocol'})
